@@ -190,6 +190,7 @@ public:
       LockGuard const lock{_spinlock};
       for (auto it = _loggers.begin(); it != _loggers.end();)
       {
+        QUILL_VERIF_POINT(10, it->get());
         if (!it->get()->is_valid_logger())
         {
           // invalid logger, check if the logger has any pending records in the queue
